@@ -7,14 +7,30 @@ ValsTiny      == {0, 2}
 KindsCore     == {"plain", "opt", "optref", "masked", "mref"}
 KindsAll      == {"plain", "int", "opt", "optref", "optcr", "optvr", "masked", "mref"}
 KindsDouble   == {"dplain", "dopt", "dmasked", "plain"}    \* (plain: the idle registers of the canonical form)
-ValsDouble    == {-1, 0, 2, NaNv}                 \* (NaNv: how a NaN is written)
-ValsDoubleQuick == {0, 2, NaNv}
-ValsSim       == ValsThorough \cup {1, NaNv}
+(* doubles: small integers, NaN (NaNv) and indices into the harness's table of remarkable doubles:           *)
+(* 1000000 = 0.5, 1000004 = 0.1, 1000006 = 1e308, 1000016 = +inf, 1000017 = -inf, 1000018 = -0.0                 *)
+ValsDouble    == {-1, 0, 2, NaNv, 1000000, 1000006, 1000016, 1000017, 1000018}
+ValsDoubleQuick == {0, 2, NaNv, 1000000, 1000016}
+(* quotients, products and sums that are inexact or overflow: 3, 7, 0.1, 1e308 *)
+ValsDNum      == {0, 3, 7, 1000004, 1000006}
+DNumClasses   == {"binary", "compound"}
+KindsMix      == {"mo", "po", "plain"}
+ValsMix       == {-1, 0, 2, NAv}                  \* (NAv: the inner optional is missing)
+ValsMixQuick  == {0, 2, NAv}
+KindsRef      == {"optref", "optcr", "optvr", "mref"}
+KindsRefQuick == {"optref", "optvr", "mref"}
+AliasClassesQuick == {"binary", "compare", "compound", "access"}
+ValsSim       == ValsThorough \cup {1, NaNv, NAv, 1000000, 1000016}
 DoubleClasses == {"unary", "binary", "ternary", "compare", "compound", "select", "valueor", "access", "assign"}
 LiftedClasses == {"unary", "binary", "ternary", "compare", "compound", "select", "valueor"}
+MixClasses    == {"unary", "binary", "ternary", "compare", "compound", "access"}
 HouseClasses  == {"access", "assign", "load"}
-AllClasses    == LiftedClasses \cup HouseClasses
-QuickClasses  == LiftedClasses \cup {"assign"}     \* (every kind is already among the initial registers)
+AllClasses    == LiftedClasses \cup HouseClasses \cup {"alias"}
+QuickClasses  == LiftedClasses \cup {"assign", "alias"}     \* (every kind is already among the initial registers)
+AliasClasses  == LiftedClasses \cup {"access", "assign"}
+EveryHow      == LoadHows
+(* multi-step exploration: one construction per kind (the others are enumerated one call at a time, Lifted_s2c_house) *)
+FewHows       == {"plain", "opt2", "optref", "optvr", "masked2", "mref", "mo2", "po2"}
 EveryFun      == AllFuns
 (* one or two representatives of every macro family: the toy algebra treats the names of a family alike *)
 FewFuns       == {"pos", "neg", "lognot", "abs", "isnan", "plus", "div", "mod", "bxor", "land", "lt", "pow", "fma",
